@@ -1007,6 +1007,15 @@ def analyse(out, res, unit):
         if kind == 'rlimit':
             undecided.append('%s: %s' % (f['id'] if f else '?', msg))
             continue
+        if f is not None and not f.get('default'):
+            # a function that calls one which only carries its type's default contract (a method added by a change: nothing states what it
+            # keeps) loses every fact across that call; what then fails in the CALLER is undecided, not a violation - the new method's own
+            # default obligations (it must not drop queued bytes, change the throttling state, ...) are still checked in its own body
+            body_txt = '\n'.join(out.lines[k] for k in range(f['start'] - 1, min(f['end'], len(out.lines))) if out.origin[k].get('kind') == 'src')
+            weak = [d['id'] for d in out.fns if d.get('default') and d is not f and re.search(r'\b%s\s*\(' % re.escape(d['id'].split('::')[-1]), body_txt)]
+            if weak:
+                undecided.append('@props=%s@ %s calls %s, which carries only the default contract of its type: %s' % (','.join(f['props']), f['id'], ', '.join(weak), msg))
+                continue
         # precondition failure: primary span = call site, secondary = the callee's requires clause
         # postcondition failure: primary span = ensures clause, secondary = exit
         label = None
